@@ -138,9 +138,9 @@ func HarnessC20ConfTimeout() {
 func HarnessC20ConfCompression() {
 	c20Clear()
 	grpc := vndChoice(2) == 1
-	sig, gen := vndChoice(4), vndChoice(4)
-	c20Env("OTEL_EXPORTER_OTLP_"+c20SigVar+"_COMPRESSION", sig, "gzip", "zstd")
-	c20Env("OTEL_EXPORTER_OTLP_COMPRESSION", gen, "gzip", "snappy")
+	sig, gen := vndChoice(5), vndChoice(5)
+	c20CompEnv("OTEL_EXPORTER_OTLP_"+c20SigVar+"_COMPRESSION", sig)
+	c20CompEnv("OTEL_EXPORTER_OTLP_COMPRESSION", gen)
 	var opts []GenericOption
 	opt := vndChoice(2) == 1
 	if opt {
@@ -148,14 +148,15 @@ func HarnessC20ConfCompression() {
 	}
 	c := c20Build(grpc, opts)
 	vndReach("resolved")
+	w, sigBad := c20CompWant(sig, gen)
 	want := NoCompression
-	if !opt && (sig == c20Valid || gen == c20Valid) {
+	if !opt && w == 1 {
 		want = GzipCompression
 	}
-	// an unparsable signal-specific value is either skipped (the generic value
+	// an unsupported signal-specific value is either skipped (the generic value
 	// applies) or read as "no compression" (the default): C20 allows both
 	// ("ignored in favour of defaults or given their documented meaning")
-	vndAssert(c.Compression == want || (!opt && sig == c20Invalid && c.Compression == NoCompression), "compression-from-highest-precedence-source")
+	vndAssert(c.Compression == want || (!opt && sigBad && c.Compression == NoCompression), "compression-from-highest-precedence-source")
 }
 
 func HarnessC20ConfHeaders() {
@@ -187,4 +188,36 @@ func HarnessC20ConfHeaders() {
 		// resolve to the default (no headers)
 		vndAssert((len(c.Headers) == 1 && c.Headers[wantK] == wantV) || (!opt && sig == c20Invalid && len(c.Headers) == 0), "headers-from-highest-precedence-source")
 	}
+}
+
+// compression sources: absent, empty, "gzip", "none", unsupported
+var c20CompVals = []string{"\x00", "", "gzip", "none", "zstd"}
+
+func c20CompEnv(key string, i int) {
+	if i == 0 {
+		vndUnsetEnv(key)
+	} else {
+		vndSetEnv(key, c20CompVals[i])
+	}
+}
+
+// c20CompWant: what the two environment sources ask for: 0 nothing, 1 gzip,
+// 2 none; sigBad: the signal-specific value is present but unsupported
+func c20CompWant(sig, gen int) (want int, sigBad bool) {
+	conv := func(i int) int {
+		switch i {
+		case 2:
+			return 1
+		case 3:
+			return 2
+		}
+		return 0
+	}
+	if sig >= 2 {
+		if sig == 4 {
+			return conv(gen), true
+		}
+		return conv(sig), false
+	}
+	return conv(gen), false
 }
